@@ -172,16 +172,16 @@ structure Cfg where
 
 def Cfg.ofGen : Cfg :=
   { spawnChecksFirst :=
-      siteBefore "os_execute_impl" "janet_getcstring" "make_pipes(&pipe_in)" &&
-      siteBefore "os_execute_impl" "janet_getjstream#3" "make_pipes(&pipe_in)" &&
-      siteBefore "os_execute_impl" "janet_panicf" "make_pipes(&pipe_in)" &&
-      siteBefore "os_execute_impl" "janet_getdictionary#2" "make_pipes(&pipe_in)"
+      siteBefore "os_execute_impl" "janet_getcstring" "make_pipes(&$1)" &&
+      siteBefore "os_execute_impl" "janet_getjstream#3" "make_pipes(&$1)" &&
+      siteBefore "os_execute_impl" "janet_panicf" "make_pipes(&$1)" &&
+      siteBefore "os_execute_impl" "janet_getdictionary#2" "make_pipes(&$1)"
     spawnStdioFailCloses :=
-      hasSite "os_execute_impl" "close_handle(new_out)#2" && hasSite "os_execute_impl" "close_handle(new_err)#2" &&
-      hasSite "os_execute_impl" "close_handle(new_err)#3"
-    fopenSizeFirst := siteBefore "cfun_io_fopen" "janet_optsize" "fopen((constchar*)fname)"
-    fopenSetvbufCloses := hasSite "cfun_io_fopen" "fclose(f)#2"
-    connectFailViaStream := hasSite "cfun_net_connect" "janet_stream_close(stream)" }
+      hasSite "os_execute_impl" "close_handle($8)#2" && hasSite "os_execute_impl" "close_handle($9)#2" &&
+      hasSite "os_execute_impl" "close_handle($9)#3"
+    fopenSizeFirst := siteBefore "cfun_io_fopen" "janet_optsize" "fopen((constchar*)$1)"
+    fopenSetvbufCloses := hasSite "cfun_io_fopen" "fclose($2)#2"
+    connectFailViaStream := hasSite "cfun_net_connect" "janet_stream_close($3)" }
 
 def Cfg.fixed : Cfg := ⟨true, true, true, true, true⟩
 
@@ -194,16 +194,16 @@ def S (fn key : String) : Site := (fn, key)
 def makePipe (outer : List Site) (a b : Var) (pipeOk fcntlOk : Bool) : List Prim × Bool :=
   if !pipeOk then ([], false)
   else
-    let c := [Prim.create (S "janet_make_pipe" "pipe(handles)" :: outer) a, .create (S "janet_make_pipe" "pipe(handles)" :: outer) b]
+    let c := [Prim.create (S "janet_make_pipe" "pipe($1)" :: outer) a, .create (S "janet_make_pipe" "pipe($1)" :: outer) b]
     if fcntlOk then (c, true)
-    else (c ++ [.close (S "janet_make_pipe" "close(handles[0])" :: outer) a, .close (S "janet_make_pipe" "close(handles[1])" :: outer) b], false)
+    else (c ++ [.close (S "janet_make_pipe" "close($1[0])" :: outer) a, .close (S "janet_make_pipe" "close($1[1])" :: outer) b], false)
 
 /-- `os/pipe` -/
 def osPipe (argsOk pipeOk fcntlOk : Bool) (o1 o2 : Oid) : List Prim :=
   if !argsOk then [.leave [S "os_pipe" "janet_getflags"]]
   else
-    let (ps, ok) := makePipe [S "os_pipe" "janet_make_pipe(fds)"] .h0 .h1 pipeOk fcntlOk
-    if ok then ps ++ [.wrap [S "os_pipe" "janet_stream(fds[0])"] .h0 o1, .wrap [S "os_pipe" "janet_stream(fds[1])"] .h1 o2,
+    let (ps, ok) := makePipe [S "os_pipe" "janet_make_pipe($1)"] .h0 .h1 pipeOk fcntlOk
+    if ok then ps ++ [.wrap [S "os_pipe" "janet_stream($1[0])"] .h0 o1, .wrap [S "os_pipe" "janet_stream($1[1])"] .h1 o2,
                       .leave [S "os_pipe" "return"]]
     else ps ++ [.leave [S "os_pipe" "janet_panicv"]]
 
@@ -211,23 +211,23 @@ def osPipe (argsOk pipeOk fcntlOk : Bool) (o1 o2 : Oid) : List Prim :=
 def osOpen (argsOk openOk : Bool) (o : Oid) : List Prim :=
   if !argsOk then [.leave [S "os_open" "janet_getcstring"]]
   else if !openOk then [.leave [S "os_open" "janet_panicv"]]
-  else [.create [S "os_open" "open(path)"] .fd, .wrap [S "os_open" "janet_stream(fd)"] .fd o, .leave [S "os_open" "return"]]
+  else [.create [S "os_open" "open($1)"] .fd, .wrap [S "os_open" "janet_stream($2)"] .fd o, .leave [S "os_open" "return"]]
 
 /-- `janet_watcher_init` (filewatch/new) -/
 def watcherInit (initOk : Bool) (o : Oid) : List Prim :=
   if !initOk then [.leave [S "janet_watcher_init" "janet_panicv"]]
   else [.create [S "janet_watcher_init" "inotify_init1(IN_NONBLOCK|IN_CLOEXEC)"] .fd,
-        .wrap [S "janet_watcher_init" "janet_stream(fd)"] .fd o, .leave [S "janet_watcher_init" "return"]]
+        .wrap [S "janet_watcher_init" "janet_stream($1)"] .fd o, .leave [S "janet_watcher_init" "return"]]
 
 /-- `get_file_for_stream` (ev/to-file): `dup`, `fdopen`, `janet_makejfile` -/
 def toFile (sandboxOk dupOk fdopenOk : Bool) (o : Oid) : List Prim :=
   if !sandboxOk then [.leave [S "get_file_for_stream" "janet_sandbox_assert"]]
   else if !dupOk then [.leave [S "get_file_for_stream" "return"]]
   else if fdopenOk then
-    [.create [S "get_file_for_stream" "dup(stream->handle)"] .fd, .move [S "get_file_for_stream" "fdopen(fd_dup)"] .fd .f,
-     .wrap [S "janet_makejfile" "makef(f)", S "get_file_for_stream" "janet_makejfile(f)"] .f o, .leave [S "get_file_for_stream" "return"]]
+    [.create [S "get_file_for_stream" "dup($1->handle)"] .fd, .move [S "get_file_for_stream" "fdopen($2)"] .fd .f,
+     .wrap [S "janet_makejfile" "makef($1)", S "get_file_for_stream" "janet_makejfile($3)"] .f o, .leave [S "get_file_for_stream" "return"]]
   else
-    [.create [S "get_file_for_stream" "dup(stream->handle)"] .fd, .close [S "get_file_for_stream" "close(fd_dup)"] .fd,
+    [.create [S "get_file_for_stream" "dup($1->handle)"] .fd, .close [S "get_file_for_stream" "close($2)"] .fd,
      .leave [S "get_file_for_stream" "return"]]
 
 /-- `janet_stream_marshal`: the dup'ed handle travels in the message (object `msg`) until `janet_stream_unmarshal` makes it
@@ -235,7 +235,7 @@ def toFile (sandboxOk dupOk fdopenOk : Bool) (o : Oid) : List Prim :=
 def streamMarshal (unsafeOk dupOk : Bool) (msg : Oid) : List Prim :=
   if !unsafeOk then [.leave [S "janet_stream_marshal" "janet_panic"]]
   else if !dupOk then [.leave [S "janet_stream_marshal" "janet_panicf"]]
-  else [.create [S "janet_stream_marshal" "dup(s->handle)"] .fd, .wrap [S "janet_stream_marshal" "janet_marshal_int"] .fd msg,
+  else [.create [S "janet_stream_marshal" "dup($1->handle)"] .fd, .wrap [S "janet_stream_marshal" "janet_marshal_int"] .fd msg,
         .leave [S "janet_stream_marshal" "return"]]
 
 /-- `file/open` -/
@@ -244,25 +244,25 @@ def ioFopen (cfg : Cfg) (argsOk sizeOk fopenOk isDir setvbufOk : Bool) (o : Oid)
   else if cfg.fopenSizeFirst && !sizeOk then [.leave [S "cfun_io_fopen" "janet_optsize"]]
   else if !fopenOk then [.leave [S "cfun_io_fopen" "return"]]
   else
-    let c := Prim.create [S "cfun_io_fopen" "fopen((constchar*)fname)"] .f
-    if isDir then [c, .close [S "cfun_io_fopen" "fclose(f)"] .f, .leave [S "cfun_io_fopen" "janet_panicf"]]
+    let c := Prim.create [S "cfun_io_fopen" "fopen((constchar*)$1)"] .f
+    if isDir then [c, .close [S "cfun_io_fopen" "fclose($2)"] .f, .leave [S "cfun_io_fopen" "janet_panicf"]]
     else if !cfg.fopenSizeFirst && !sizeOk then [c, .leave [S "cfun_io_fopen" "janet_optsize"]]
     else if !setvbufOk then
-      (if cfg.fopenSetvbufCloses then [c, .close [S "cfun_io_fopen" "fclose(f)#2"] .f, .leave [S "cfun_io_fopen" "janet_panic"]]
+      (if cfg.fopenSetvbufCloses then [c, .close [S "cfun_io_fopen" "fclose($2)#2"] .f, .leave [S "cfun_io_fopen" "janet_panic"]]
        else [c, .leave [S "cfun_io_fopen" "janet_panic"]])
-    else [c, .wrap [S "janet_makefile" "makef(f)", S "cfun_io_fopen" "janet_makefile(f)"] .f o, .leave [S "cfun_io_fopen" "return"]]
+    else [c, .wrap [S "janet_makefile" "makef($1)", S "cfun_io_fopen" "janet_makefile($2)"] .f o, .leave [S "cfun_io_fopen" "return"]]
 
 /-- `file/temp` -/
 def ioTemp (ok : Bool) (o : Oid) : List Prim :=
   if !ok then [.leave [S "cfun_io_temp" "janet_panicf"]]
-  else [.create [S "cfun_io_temp" "tmpfile()"] .f, .wrap [S "janet_makefile" "makef(f)", S "cfun_io_temp" "janet_makefile(tmp)"] .f o,
+  else [.create [S "cfun_io_temp" "tmpfile()"] .f, .wrap [S "janet_makefile" "makef($1)", S "cfun_io_temp" "janet_makefile($1)"] .f o,
         .leave [S "cfun_io_temp" "return"]]
 
 /-- `net_callback_accept` on INIT / READ -/
 def netAccept (acceptOk : Bool) (o : Oid) : List Prim :=
   if !acceptOk then [.leave [S "net_callback_accept" "break"]]
-  else [.create [S "net_callback_accept" "accept4(stream->handle)"] .fd,
-        .wrap [S "make_stream" "janet_stream((JanetHandle)handle)", S "net_callback_accept" "make_stream(connfd)"] .fd o,
+  else [.create [S "net_callback_accept" "accept4($1->handle)"] .fd,
+        .wrap [S "make_stream" "janet_stream((JanetHandle)$1)", S "net_callback_accept" "make_stream($2)"] .fd o,
         .leave [S "net_callback_accept" "return"]]
 
 /-- `net/connect` -/
@@ -270,14 +270,14 @@ def netConnect (cfg : Cfg) (argsOk isUnix sockOk hasBinding bindOk connectOk : B
   if !argsOk then [.leave [S "cfun_net_connect" "janet_get_addrinfo"]]
   else if !sockOk then [.leave [S "cfun_net_connect" "janet_panicf"]]
   else
-    let c := Prim.create [S "cfun_net_connect" (if isUnix then "socket(1)" else "socket(rp->ai_family)")] .sock
-    if hasBinding && !bindOk then [c, .close [S "cfun_net_connect" "close(sock)"] .sock, .leave [S "cfun_net_connect" "janet_panicf#4"]]
+    let c := Prim.create [S "cfun_net_connect" (if isUnix then "socket(1)" else "socket($1->ai_family)")] .sock
+    if hasBinding && !bindOk then [c, .close [S "cfun_net_connect" "close($2)"] .sock, .leave [S "cfun_net_connect" "janet_panicf#4"]]
     else
-      let w := Prim.wrap [S "make_stream" "janet_stream((JanetHandle)handle)", S "cfun_net_connect" "make_stream(sock)"] .sock o
+      let w := Prim.wrap [S "make_stream" "janet_stream((JanetHandle)$1)", S "cfun_net_connect" "make_stream($2)"] .sock o
       if connectOk then [c, w, .leave [S "cfun_net_connect" "net_sched_connect"]]
       else if cfg.connectFailViaStream then
-        [c, w, .closeObj [S "janet_stream_close_impl" "close(stream->handle)", S "janet_stream_close" "janet_stream_close_impl(stream)",
-                          S "cfun_net_connect" "janet_stream_close(stream)"] o, .leave [S "cfun_net_connect" "janet_panicf#5"]]
+        [c, w, .closeObj [S "janet_stream_close_impl" "close($1->handle)", S "janet_stream_close" "janet_stream_close_impl($1)",
+                          S "cfun_net_connect" "janet_stream_close($3)"] o, .leave [S "cfun_net_connect" "janet_panicf#5"]]
       else [c, w, .close [S "cfun_net_connect" "close(sock)#2"] .sock, .leave [S "cfun_net_connect" "janet_panicf#5"]]
 
 /-- one iteration of net/listen's loop over the address list that does not `break` -/
@@ -287,8 +287,8 @@ inductive ListenTry
 
 def listenTry : ListenTry → List Prim
   | .sockFail => []
-  | .serverifyFail => [.create [S "cfun_net_listen" "socket(rp->ai_family)"] .sock, .close [S "cfun_net_listen" "close(sfd)#2"] .sock]
-  | .bindFail => [.create [S "cfun_net_listen" "socket(rp->ai_family)"] .sock, .close [S "cfun_net_listen" "close(sfd)#3"] .sock]
+  | .serverifyFail => [.create [S "cfun_net_listen" "socket($2->ai_family)"] .sock, .close [S "cfun_net_listen" "close($1)#2"] .sock]
+  | .bindFail => [.create [S "cfun_net_listen" "socket($2->ai_family)"] .sock, .close [S "cfun_net_listen" "close($1)#3"] .sock]
 
 def listenTries : List ListenTry → List Prim
   | [] => []
@@ -299,50 +299,50 @@ def netListen (argsOk isUnix sockOk setupOk : Bool) (tries : List ListenTry) (fo
   if !argsOk then [.leave [S "cfun_net_listen" "janet_get_addrinfo"]]
   else
     let tail : List Prim :=
-      if isDgram then [.wrap [S "make_stream" "janet_stream((JanetHandle)handle)", S "cfun_net_listen" "make_stream(sfd)"] .sock o,
+      if isDgram then [.wrap [S "make_stream" "janet_stream((JanetHandle)$1)", S "cfun_net_listen" "make_stream($1)"] .sock o,
                        .leave [S "cfun_net_listen" "return"]]
-      else if listenOk then [.wrap [S "make_stream" "janet_stream((JanetHandle)handle)", S "cfun_net_listen" "make_stream(sfd)#2"] .sock o,
+      else if listenOk then [.wrap [S "make_stream" "janet_stream((JanetHandle)$1)", S "cfun_net_listen" "make_stream($1)#2"] .sock o,
                              .leave [S "cfun_net_listen" "return"]]
-      else [.close [S "cfun_net_listen" "close(sfd)#4"] .sock, .leave [S "cfun_net_listen" "janet_panicf#3"]]
+      else [.close [S "cfun_net_listen" "close($1)#4"] .sock, .leave [S "cfun_net_listen" "janet_panicf#3"]]
     if isUnix then
       if !sockOk then [.leave [S "cfun_net_listen" "janet_panicf"]]
-      else if !setupOk then [.create [S "cfun_net_listen" "socket(1)"] .sock, .close [S "cfun_net_listen" "close(sfd)"] .sock,
+      else if !setupOk then [.create [S "cfun_net_listen" "socket(1)"] .sock, .close [S "cfun_net_listen" "close($1)"] .sock,
                              .leave [S "cfun_net_listen" "janet_panic"]]
       else .create [S "cfun_net_listen" "socket(1)"] .sock :: tail
     else
       listenTries tries ++
-        (if found then .create [S "cfun_net_listen" "socket(rp->ai_family)"] .sock :: tail
+        (if found then .create [S "cfun_net_listen" "socket($2->ai_family)"] .sock :: tail
          else [.leave [S "cfun_net_listen" "janet_panic#2"]])
 
 /-- explicit close (`ev/close`, `:close`), `janet_stream_close` on the object, and the finaliser `janet_stream_gc` -/
 def streamClose (o : Oid) : List Prim :=
-  [.closeObj [S "janet_stream_close_impl" "close(stream->handle)", S "janet_stream_close" "janet_stream_close_impl(stream)",
-              S "janet_cfun_stream_close" "janet_stream_close(stream)"] o, .leave [S "janet_cfun_stream_close" "return"]]
+  [.closeObj [S "janet_stream_close_impl" "close($1->handle)", S "janet_stream_close" "janet_stream_close_impl($1)",
+              S "janet_cfun_stream_close" "janet_stream_close($1)"] o, .leave [S "janet_cfun_stream_close" "return"]]
 
 def streamGc (o : Oid) : List Prim :=
-  [.closeObj [S "janet_stream_close_impl" "close(stream->handle)", S "janet_stream_gc" "janet_stream_close_impl(stream)"] o,
+  [.closeObj [S "janet_stream_close_impl" "close($1->handle)", S "janet_stream_gc" "janet_stream_close_impl($1)"] o,
    .leave [S "janet_stream_gc" "return"]]
 
 /-- `file/close` and the finaliser `cfun_io_gc` -/
 def fileClose (o : Oid) : List Prim :=
-  [.closeObj [S "cfun_io_fclose" "fclose(iof->file)"] o, .leave [S "cfun_io_fclose" "return"]]
+  [.closeObj [S "cfun_io_fclose" "fclose($1->file)"] o, .leave [S "cfun_io_fclose" "return"]]
 
 def fileGc (o : Oid) : List Prim :=
-  [.closeObj [S "janet_file_close" "fclose(file->file)", S "cfun_io_gc" "janet_file_close(iof)"] o, .leave [S "cfun_io_gc" "return"]]
+  [.closeObj [S "janet_file_close" "fclose($1->file)", S "cfun_io_gc" "janet_file_close($1)"] o, .leave [S "cfun_io_gc" "return"]]
 
 /-- `filewatch/unlisten` -/
 def watcherUnlisten (o : Oid) : List Prim :=
-  [.closeObj [S "janet_stream_close_impl" "close(stream->handle)", S "janet_stream_close" "janet_stream_close_impl(stream)",
-              S "janet_watcher_unlisten" "janet_stream_close(watcher->stream)"] o, .leave [S "janet_watcher_unlisten" "return"]]
+  [.closeObj [S "janet_stream_close_impl" "close($1->handle)", S "janet_stream_close" "janet_stream_close_impl($1)",
+              S "janet_watcher_unlisten" "janet_stream_close($1->stream)"] o, .leave [S "janet_watcher_unlisten" "return"]]
 
 /-- `os/proc-close`: closes the streams of the :pipe redirections it owns -/
 def procClose (oin oout oerr : Option Oid) : List Prim :=
   let c (k : String) (o : Option Oid) : List Prim :=
     match o with
     | none => []
-    | some x => [.closeObj [S "janet_stream_close_impl" "close(stream->handle)", S "janet_stream_close" "janet_stream_close_impl(stream)",
+    | some x => [.closeObj [S "janet_stream_close_impl" "close($1->handle)", S "janet_stream_close" "janet_stream_close_impl($1)",
                             S "os_proc_close" k] x]
-  c "janet_stream_close(proc->in)" oin ++ c "janet_stream_close(proc->out)" oout ++ c "janet_stream_close(proc->err)" oerr ++
+  c "janet_stream_close($1->in)" oin ++ c "janet_stream_close($1->out)" oout ++ c "janet_stream_close($1->err)" oerr ++
     [.leave [S "os_proc_close" "return"]]
 
 /-- `janet_ev_init` / `janet_ev_deinit` of one VM (main thread or worker thread): self pipe, epoll, timerfd.
@@ -393,22 +393,22 @@ structure SlotVars where
   mkPipes : String   -- the make_pipes call site
   stdio : String     -- the get_stdio_for_handle call site
 
-def slotIn : SlotVars := ⟨.pipeIn, .newIn, .tmp0, .dupIn, "make_pipes(&pipe_in)", "get_stdio_for_handle(new_in)"⟩
-def slotOut : SlotVars := ⟨.pipeOut, .newOut, .tmp1, .dupOut, "make_pipes(&pipe_out)", "get_stdio_for_handle(new_out)"⟩
-def slotErr : SlotVars := ⟨.pipeErr, .newErr, .tmp2, .dupErr, "make_pipes(&pipe_err)", "get_stdio_for_handle(new_err)"⟩
+def slotIn : SlotVars := ⟨.pipeIn, .newIn, .tmp0, .dupIn, "make_pipes(&$1)", "get_stdio_for_handle($7)"⟩
+def slotOut : SlotVars := ⟨.pipeOut, .newOut, .tmp1, .dupOut, "make_pipes(&$2)", "get_stdio_for_handle($8)"⟩
+def slotErr : SlotVars := ⟨.pipeErr, .newErr, .tmp2, .dupErr, "make_pipes(&$3)", "get_stdio_for_handle($9)"⟩
 
 def fnX : String := "os_execute_impl"
 
 /-- `new_x = make_pipes(&pipe_x, …)` -/
 def slotPipes (v : SlotVars) : Slot → List Prim
-  | .pipeOk => (makePipe [S "make_pipes" "janet_make_pipe(handles)", S fnX v.mkPipes] v.pipe v.new true true).1
-  | .pipeFailF => (makePipe [S "make_pipes" "janet_make_pipe(handles)", S fnX v.mkPipes] v.pipe v.new true false).1
+  | .pipeOk => (makePipe [S "make_pipes" "janet_make_pipe($1)", S fnX v.mkPipes] v.pipe v.new true true).1
+  | .pipeFailF => (makePipe [S "make_pipes" "janet_make_pipe($1)", S fnX v.mkPipes] v.pipe v.new true false).1
   | _ => []
 
 /-- the loop creating `tmp_handles[i]`; it stops at the first error (`!pipe_errflag` in the loop condition) -/
 def slotTmp (v : SlotVars) (errBefore : Bool) : Slot → List Prim
   | .tmpOk | .tmpOkFileDupOk | .tmpOkFileDupFail | .tmpSetfdFail =>
-    if errBefore then [] else [.create [S fnX "fcntl_dupfd(src_handles[i])"] v.tmp]
+    if errBefore then [] else [.create [S fnX "fcntl_dupfd($4[$5])"] v.tmp]
   | _ => []
 
 /-- does the slot hold the named local at the time of the clean-up / the spawn? -/
@@ -424,14 +424,14 @@ def closeIf (c : Bool) (site : String) (v : Var) : List Prim := if c then [.clos
 
 /-- through the `close_handle` helper -/
 def closeHIf (c : Bool) (site : String) (v : Var) : List Prim :=
-  if c then [.close [S "close_handle" "close(handle)", S fnX site] v] else []
+  if c then [.close [S "close_handle" "close($1)", S fnX site] v] else []
 
 /-- `get_stdio_for_handle(new_x, orig_x, …)` for one slot, given what a failure has to clean up -/
 def slotStdio (cfg : Cfg) (v : SlotVars) (o : Oid) (cleanup : List Prim) : Slot → List Prim × Bool
-  | .pipeOk => ([.wrap [S "get_stdio_for_handle" "janet_stream(handle)", S fnX v.stdio] v.new o], true)
+  | .pipeOk => ([.wrap [S "get_stdio_for_handle" "janet_stream($1)", S fnX v.stdio] v.new o], true)
   | .fileDupOk | .tmpOkFileDupOk =>
-    ([.create [S "get_stdio_for_handle" "dup(handle)", S fnX v.stdio] v.dup,
-      .wrap [S "get_stdio_for_handle" "janet_stream(newHandle)", S fnX v.stdio] v.dup o], true)
+    ([.create [S "get_stdio_for_handle" "dup($1)", S fnX v.stdio] v.dup,
+      .wrap [S "get_stdio_for_handle" "janet_stream($2)", S fnX v.stdio] v.dup o], true)
   | .fileDupFail | .tmpOkFileDupFail =>
     ((if cfg.spawnStdioFailCloses then cleanup else []) ++ [.leave [S fnX "janet_panic(failedtoconstructproc)"]], false)
   | _ => ([], true)
@@ -458,25 +458,25 @@ def osExecuteShape (cfg : Cfg) (isSpawn argsOk spawnOk : Bool) (a b c : Slot) : 
         closeIf (a.hasTmp e0) n .tmp0 ++ closeIf (b.hasTmp e1) n .tmp1 ++ closeIf (c.hasTmp e2) n .tmp2
       if e3 then
         -- `if (pipe_errflag) { close tmp_handles; close pipe_x; close owned new_x; janet_panic }`
-        pipes ++ tmps ++ closeTmps "close(tmp_handles[i])" ++
-          closeHIf a.hasPipe "close_handle(pipe_in)" .pipeIn ++ closeHIf b.hasPipe "close_handle(pipe_out)" .pipeOut ++
-          closeHIf c.hasPipe "close_handle(pipe_err)" .pipeErr ++
-          closeHIf a.hasPipe "close_handle(new_in)" .newIn ++ closeHIf b.hasPipe "close_handle(new_out)" .newOut ++
-          closeHIf c.hasPipe "close_handle(new_err)" .newErr ++ [.leave [S fnX "janet_panic(failedtocreatepipes)"]]
+        pipes ++ tmps ++ closeTmps "close($6[$5])" ++
+          closeHIf a.hasPipe "close_handle($1)" .pipeIn ++ closeHIf b.hasPipe "close_handle($2)" .pipeOut ++
+          closeHIf c.hasPipe "close_handle($3)" .pipeErr ++
+          closeHIf a.hasPipe "close_handle($7)" .newIn ++ closeHIf b.hasPipe "close_handle($8)" .newOut ++
+          closeHIf c.hasPipe "close_handle($9)" .newErr ++ [.leave [S fnX "janet_panic(failedtocreatepipes)"]]
       else
         -- posix_spawn, then the child's ends and the duplicates are closed in the parent
-        let afterSpawn := closeIf a.hasPipe "close(pipe_in)" .pipeIn ++ closeIf b.hasPipe "close(pipe_out)" .pipeOut ++
-          closeIf c.hasPipe "close(pipe_err)" .pipeErr ++ closeTmps "close(tmp_handles[i])#2"
+        let afterSpawn := closeIf a.hasPipe "close($1)" .pipeIn ++ closeIf b.hasPipe "close($2)" .pipeOut ++
+          closeIf c.hasPipe "close($3)" .pipeErr ++ closeTmps "close($6[$5])#2"
         if !spawnOk then
-          pipes ++ tmps ++ afterSpawn ++ closeIf a.hasPipe "close(new_in)" .newIn ++ closeIf b.hasPipe "close(new_out)" .newOut ++
-            closeIf c.hasPipe "close(new_err)" .newErr ++ [.leave [S fnX "janet_panicf(%p:%s)"]]
+          pipes ++ tmps ++ afterSpawn ++ closeIf a.hasPipe "close($7)" .newIn ++ closeIf b.hasPipe "close($8)" .newOut ++
+            closeIf c.hasPipe "close($9)" .newErr ++ [.leave [S fnX "janet_panicf(%p:%s)"]]
         else if !isSpawn then pipes ++ tmps ++ afterSpawn ++ [.leave [S fnX "os_proc_wait_impl"]]
         else
           let (pa, oka) := slotStdio cfg slotIn oa
-            (closeHIf b.hasPipe "close_handle(new_out)#2" .newOut ++ closeHIf c.hasPipe "close_handle(new_err)#2" .newErr) a
+            (closeHIf b.hasPipe "close_handle($8)#2" .newOut ++ closeHIf c.hasPipe "close_handle($9)#2" .newErr) a
           if !oka then pipes ++ tmps ++ afterSpawn ++ pa
           else
-            let (pb, okb) := slotStdio cfg slotOut ob (closeHIf c.hasPipe "close_handle(new_err)#3" .newErr) b
+            let (pb, okb) := slotStdio cfg slotOut ob (closeHIf c.hasPipe "close_handle($9)#3" .newErr) b
             if !okb then pipes ++ tmps ++ afterSpawn ++ pa ++ pb
             else
               let (pc, okc) := slotStdio cfg slotErr oc [] c
